@@ -398,6 +398,19 @@ def c37_hmm_forward_filter_asymmetric():
     assert err < 1e-5, f"filter error {err}"
     return err
 
+@probe
+def c29_flip_enum_parallel():
+    """d/dp E_{b ~ flip(p)}[b ? 2p : 3] = 4p - 3; flip_enum_parallel enumerates both outcomes, so the estimate is exact"""
+    from genjax._src.adev.core import expectation
+    from genjax._src.adev.primitives import flip_enum_parallel
+    @expectation
+    def f(p):
+        b = flip_enum_parallel(p)
+        return jnp.where(b, 2.0 * p, 3.0)
+    g = float(f.grad_estimate(key, (0.3,))[0])
+    assert abs(g - (4 * 0.3 - 3)) < 1e-4, g
+    return g
+
 if __name__ == "__main__":
     names = sys.argv[1:] or list(P)
     bad = 0
